@@ -108,6 +108,69 @@ def tuples(N):
     return out
 
 
+def ascii_tuples():
+    out = []
+    d = (1, 1, 2, 2)
+    for n in (1, 2, 5):
+        out += [D.Config("Multistage", (1, 1, "maximum"), n),
+                D.Config("Mixed", (1, "DISK"), n),
+                D.Config("TwoLevel", (2, 1, "RAM", "maximum"), n, 2),
+                D.Config("Revolve", (1,) + d, n),
+                D.Config("DiskRevolve", (1,) + d, n),
+                D.Config("PeriodicDiskRevolve", (1,) + d, n),
+                D.Config("PeriodicDiskRevolve", (2, 3, 1, 1, 1), n),
+                D.Config("HRevolve", (1, 1) + d, n),
+                D.Config("SingleMemory", (), n, 2),
+                D.Config("SingleDiskCopy", (), n, 2),
+                D.Config("SingleDiskMove", (), n),
+                D.Config("NoneSchedule", (), n)]
+    return out
+
+
+def ascii_run():
+    """In a subprocess whose stdout can only encode ASCII and is really
+    written to: whatever the library prints must not stop a valid tuple from
+    yielding its schedule."""
+    import json
+    for i, cfg in enumerate(ascii_tuples()):
+        run = D.drive(cfg, observers=False)
+        print("ASCII " + json.dumps([i, run.construct_exc,
+                                     run.stream_exc and list(run.stream_exc)]),
+              flush=True)
+
+
+def ascii_stdout_pass(res, prop):
+    import json
+    import os
+    import subprocess
+    import sys
+    code = ("import sys; sys.path.insert(0, %r); "
+            "from vf import props_c17 as P; P.ascii_run()" % common.VERIF_DIR)
+    env = dict(os.environ, PYTHONHASHSEED="0", VERIF_REPO=common.REPO,
+               PYTHONIOENCODING="ascii:strict", VERIF_STDOUT="real")
+    env.pop("PYTHONUTF8", None)
+    p = subprocess.run([sys.executable, "-X", "utf8=0", "-c", code], env=env,
+                       capture_output=True, timeout=600)
+    out = p.stdout.decode("ascii", "replace")
+    rows = [json.loads(x[6:]) for x in out.splitlines()
+            if x.startswith("ASCII ")]
+    tuples_ = ascii_tuples()
+    if len(rows) != len(tuples_):
+        res.harness_error("ascii-stdout pass incomplete: "
+                          f"{p.stderr.decode('ascii', 'replace')[-300:]}")
+    res.add(evaluations=len(rows), states=len(rows), transitions=len(rows),
+            traces_validated_against_impl=len(rows))
+    res.counters["tuples_with_ascii_only_stdout"] = len(rows)
+    for i, cexc, sexc in rows:
+        if cexc or sexc:
+            cfg = tuples_[i]
+            rp = common.write_replay(prop, f"{cfg.cls}_ascii_stdout", {
+                "property": prop, "kind": "c17_ascii", "index": i})
+            res.violation({"cls": cfg.cls, "code": "fails_with_ascii_stdout"},
+                          f"{cfg!r} (valid) with a stdout that only encodes "
+                          f"ASCII (PYTHONIOENCODING=ascii): {cexc or sexc}", rp)
+
+
 class _Timeout(Exception):
     pass
 
@@ -240,10 +303,21 @@ def check(prop, tier):
         "and 0 RAM units: either a complete stream or an early exception",
         "negative unit counts, non-positive costs and unknown trajectory "
         "strings are outside the enumerated box"]
+    ascii_stdout_pass(res, prop)
     return common.finish(res)
 
 
 def replay(prop, payload):
+    if payload.get("kind") == "c17_ascii":
+        res = common.Result(prop, "quick")
+        ascii_stdout_pass(res, prop)
+        for v in res.violations[:3]:
+            print(v["detail"])
+        if res.violations:
+            print(f"VIOLATION property={prop} replay=(replayed)")
+            return 1
+        print("ascii-stdout pass replayed without a finding")
+        return 0
     cfg = D.Config.from_json(payload["config"])
     out = evaluate(cfg)
     print(cfg, classify(cfg), out)
